@@ -309,21 +309,13 @@ end:
 func (br *xmpReader) readTagValue() (buf []byte, err error) {
 	var i, j int
 	s := maxTagValueSize
-	first, started := true, false
+	started := false
 	for {
 		if buf, err = br.Peek(s); err != nil {
 			err = errors.Wrap(err, "Tag Value")
 			return
 		}
 		if !started {
-			if first {
-				first = false
-				if buf[i] == '>' {
-					i++
-				} else if buf[i] == '/' && buf[i+1] == '>' {
-					i += 2
-				}
-			}
 			// removes white space and new lines prefixes, however long the run is
 			for ; i < len(buf); i++ {
 				if isSpace(buf[i]) {
